@@ -26,6 +26,7 @@ import (
 	"strconv"
 	"strings"
 	"sync"
+	"sync/atomic"
 	"time"
 
 	"golang.org/x/crypto/ssh"
@@ -1115,6 +1116,9 @@ func doOp(ag agent.ExtendedAgent, t []ident, op string) string {
 		return "z"
 	case "y":
 		time.Sleep(time.Duration(atoi(f[1])) * time.Millisecond)
+		if j, err := strconv.Atoi(os.Getenv("VERIF_C43_JITTER_MS")); err == nil { // self-test of the timing guard
+			time.Sleep(time.Duration(j) * time.Millisecond)
+		}
 		return "z"
 	case "p": // wait until the wall clock is at that many milliseconds into a second
 		target := atoi(f[1])
@@ -1268,6 +1272,10 @@ func forwardedAgent(kr agent.Agent, remote bool) (io.ReadWriteCloser, func(), er
 	return ch, cleanup, nil
 }
 
+// counts of wall-clock dependent steps and of those answered `timing-inconclusive` (written next to the
+// run's other files when the exec process ends)
+var timingSteps, timingInconclusive atomic.Int64
+
 func execSeq(o hx.Op) string {
 	t := table(o)
 	kr := agent.NewKeyring()
@@ -1296,15 +1304,82 @@ func execSeq(o hx.Op) string {
 	default:
 		return "bad-op"
 	}
+	// Wall-clock self-validation.  For every key added with a short lifetime the real Add interval [t0,t1] is
+	// recorded; at every step that depends on expiry the real query interval [q0,q1] decides whether the key
+	// was CERTAINLY expired (q0 - t1 > L) or CERTAINLY present (q1 - t0 < L).  If that is not what the nominal
+	// clock of the op line says (sleeps overshot under load, a phase wait missed its window), this step and
+	// all later ones answer `timing-inconclusive`, which the model side accepts.
+	type tracked struct {
+		life     time.Duration
+		t0, t1   time.Time
+		nomAddMs int64
+	}
+	live := map[int]*tracked{}
+	var nomMs int64
+	tainted := false
 	var out []string
 	for _, op := range semi(o.Str("ops")) {
+		f := strings.Split(op, ".")
+		q0 := time.Now()
 		res := hx.Catch(func() string { return doOp(ag, t, op) })
+		q1 := time.Now()
+		switch f[0] {
+		case "y":
+			nomMs += int64(atoi(f[1]))
+		case "z":
+			nomMs += 1000 * int64(atoi(f[1]))
+		case "p": // the phase must have been reached (only matters for the sensitivity of the test)
+			ph := q1.Nanosecond() / 1e6
+			if d := (ph - atoi(f[1]) + 1000) % 1000; d > 120 {
+				tainted = true
+			}
+		case "a":
+			if res == "ok" {
+				i := atoi(f[1])
+				if l := atoi(f[2]); l > 0 && l < 100000 {
+					live[i] = &tracked{time.Duration(l) * time.Second, q0, q1, nomMs}
+				} else {
+					delete(live, i)
+				}
+			}
+		case "r":
+			if res == "ok" {
+				delete(live, atoi(f[1]))
+			}
+		case "R":
+			if res == "ok" {
+				live = map[int]*tracked{}
+			}
+		case "L", "s", "S", "V", "G": // steps that run expireKeysLocked and show its effect
+			if res == "err" && (f[0] == "L" || f[0] == "S") {
+				break
+			}
+			for i, k := range live {
+				nominalExpired := nomMs-k.nomAddMs >= k.life.Milliseconds()
+				certainlyExpired := q0.Sub(k.t1) > k.life
+				certainlyPresent := q1.Sub(k.t0) < k.life
+				switch {
+				case nominalExpired && certainlyExpired:
+					delete(live, i) // collected (if the agent was unlocked; if it was locked the key is gone later, same answer)
+				case !nominalExpired && certainlyPresent:
+				default:
+					tainted = true
+				}
+			}
+		}
 		if panicked != nil {
 			select {
 			case <-panicked:
 				res = "panic"
 			default:
 			}
+		}
+		if tainted && res != "panic" && f[0] != "y" && f[0] != "z" && f[0] != "p" {
+			res = "timing-inconclusive"
+			timingInconclusive.Add(1)
+		}
+		if len(live) > 0 || f[0] == "p" {
+			timingSteps.Add(1)
 		}
 		out = append(out, res)
 	}
@@ -1470,4 +1545,11 @@ func exec(line string) string {
 func main() {
 	log.SetOutput(io.Discard) // the server logs every failed request
 	hx.Main(hx.Harness{Gen: gen, Exec: exec})
+	if n := timingSteps.Load(); n > 0 {
+		fmt.Fprintf(os.Stderr, "c43: wall-clock steps=%d timing-inconclusive=%d\n", n, timingInconclusive.Load())
+		if exe, err := os.Executable(); err == nil {
+			os.WriteFile(filepath.Join(filepath.Dir(filepath.Dir(exe)), "c43-timing.json"),
+				[]byte(fmt.Sprintf("{\"wall_clock_steps\": %d, \"timing_inconclusive\": %d}\n", n, timingInconclusive.Load())), 0o644)
+		}
+	}
 }
